@@ -1,16 +1,42 @@
 (* C03: only validated and nominated pairs are ever selected.
-   Statements only; proofs in Proofs/AgentC03.v, AgentC20.v.  PARTIAL: the theorems below carry the
-   role discipline (who may nominate / send checks) for every operation from every state, and the
-   selection rules of the controlled selector; the ghost-log statement "the selected pair completed
-   a check of its own" is not a theorem: the model (and the code) accept a success response on a
+   Statements only; proofs in Proofs/AgentC03.v, AgentC03Sel.v, AgentC20.v.  PARTIAL: proved are (1) for
+   EVERY history, the selected pair is listed, valid (Succeeded) and nominated -- an invariant of every
+   operation; (2) the role discipline (who may nominate / send checks) for every operation from every
+   state; (3) the selection rules of the controlled selector.  The ghost-log refinement "valid BY a check
+   of its own" is not a theorem: the model (and the code) accept a success response on a
    different local candidate than the one that sent the request (known finding C03, refuted in
    Findings/F_C03_cross_local.v); the extracted monitor C03.* checks the full statement on the
    implementation's observations. *)
 From Coq Require Import ZArith Bool List.
 From Ice Require Import Model.AgentTypes Model.AgentCore Gen.Consts Gen.Lifecycle
-     Proofs.AgentFrame Proofs.AgentC03 Proofs.AgentC20.
+     Proofs.AgentFrame Proofs.AgentC03 Proofs.AgentC03Sel Proofs.AgentC20.
 Import ListNotations.
 Local Open Scope Z_scope.
+
+(* In every reachable state -- after ANY sequence of API calls, ticks and inbound datagrams, full or lite,
+   either role -- the selected pair is in the checklist, is valid (Succeeded) and carries the nominated flag *)
+Theorem C03_selected_is_validated_and_nominated : forall cfg lu lp ops id,
+  s_selected (fst (run cfg lu lp ops)) = Some id ->
+  exists p, In p (s_checklist (fst (run cfg lu lp ops))) /\ p_id p = id /\
+            p_state p = CandidatePairStateSucceeded /\ p_nominated p = true.
+Proof. exact selected_is_validated_and_nominated. Qed.
+Print Assumptions C03_selected_is_validated_and_nominated.
+
+(* the invariant behind it is preserved by every operation from every state satisfying it (with C06's
+   uniqueness of pair identifiers) *)
+Theorem C03_selection_invariant_step : forall cfg s o, G s -> G (fst (step cfg s o)).
+Proof. exact step_G. Qed.
+Print Assumptions C03_selection_invariant_step.
+
+(* non-vacuity: a controlled agent that validates a pair and is told to use it ends with that pair selected *)
+Example C03_example_selected :
+  let cfg := mkConfig false 5 7 5000000000 false 25000000000 0 0 0 0 0 [] false false 1 in
+  let l := mkCand 1 1 1 (mkAddr false 167772161 5000) 0 2130706431 1 None in
+  let ra := mkAddr false 3232235777 6000 in
+  let req tx use := InStun 1 ra (mkMsg 0 1 tx (Some (1, 3)) (Some 1) use (Some (true, 9)) (Some 2000) None None None) in
+  let resp tx := InStun 1 ra (mkMsg 2 1 tx None (Some 4) false None None None None None) in
+  s_selected (fst (run cfg 1 1 [AddLocal l; Start false 3 4; req 2000001 false; resp 1; req 2000002 true])) = Some 1.
+Proof. vm_compute. reflexivity. Qed.
 
 (* A controlled agent never sends USE-CANDIDATE (nor a nomination value): every nominating request of
    every operation from every state carries the controlling role *)
